@@ -206,6 +206,19 @@ def make_function(params: Sequence[Param], fname: str = "f", flavour: str = "fun
            f"{fname} = _C_{fname}()\n")
     exec(src, ns)  # pylint: disable=exec-used
     fn = ns[fname]
+  elif flavour in ("unhashable_instance", "slots_instance"):
+    # callable instances that cannot be weak-dictionary keys: unhashable (defines __eq__), or
+    # __slots__ without __weakref__; short-lived, so their addresses get reused
+    extra = ("  __eq__ = lambda a, b: a is b\n  __hash__ = None\n" if flavour == "unhashable_instance"
+             else "  __slots__ = ()\n")
+    src = (f"class _U_{fname}:\n" + extra +
+           f"  def __call__(self_{', ' if sigtext else ''}{sigtext}):\n"
+           f"    r = Recorded({fname!r}, {body_view})\n"
+           f"    CALL_LOG.append(({fname!r}, r))\n"
+           f"    return r\n"
+           f"{fname} = _U_{fname}()\n")
+    exec(src, ns)  # pylint: disable=exec-used
+    fn = ns[fname]
   elif flavour == "classmethod":
     src = (f"class _K_{fname}:\n"
            f"  @classmethod\n"
@@ -348,8 +361,13 @@ class Stream:
     self.meta.append(meta)
 
 
+CURRENT_RESULT = None   # the Result being filled: lets check.py salvage failures if the harness crashes
+
+
 class Result:
   def __init__(self):
+    global CURRENT_RESULT
+    CURRENT_RESULT = self
     self.streams: List[Stream] = []
     self.failures: List[Failure] = []
     self.evaluations = 0
